@@ -172,6 +172,28 @@ NEEDS8 = {
  "C16_a": "FastFixedIn::output_frames_next recomputed as (distance*ratio_max) as usize + 2 while process_into_buffer validates against the dividing formula: first call after new/reset with ratio p/q and chunk-6 a multiple of q (13/3, chunk 237) -> process() allocates one frame too few",
  "C16_b": "process_partial_into_buffer returns Ok((0,0)) early when input_frames_next() == 0 and the input is None: FftFixedOut with the output block larger than the chunk still owes saved frames",
 }
+NEEDS9 = {
+ "C04_b": "SincFixedOut::set_resample_ratio calls update_needed_len only when new_ratio != target_ratio: set_resample_ratio(r, ramp) then set_resample_ratio(r, no ramp) with no call in between keeps the stale ramp-based length; input_frames_next exceeds input_frames_max only with r near the lowest allowed ratio and chunk*(1/r-1/r_old)/2 > sinc_len/2+2",
+ "C05_b": "SincFixedOut::set_chunk_size computes needed_input_size inline from 1/resample_ratio, ignoring a pending ramp: set_resample_ratio(lower, ramp), then set_chunk_size, then process -> stale frames at that boundary",
+ "C06_b": "SincFixedOut::set_resample_ratio runs update_needed_len only when the new ratio differs from the ratio in effect: a ramped change to R1 withdrawn before the next call by setting exactly the ratio still in effect (or relative 1.0) keeps the needed size of the withdrawn ramp",
+ "C10_b": "SincFixedOut::reset uses update_needed_len (ceil(-len/2 + chunk*(1/ratio) + len)) instead of the constructor's ceil(chunk/ratio)+len/2: differs only when chunk/ratio is a whole number and chunk*(1/ratio) rounds one ulp above it (48000->44100 chunk 1176; 263 of 450 560 standard-rate configs)",
+ "C11_b": "process_partial_into_buffer copies the shortest non-empty active channel length for all channels: a ragged partial block with active channels of different non-zero lengths (7 and 41 frames) makes one channel's output depend on another's input length",
+ "C16_b": "process_partial_into_buffer fast path: if the first active channel already holds input_frames_next frames the caller's input goes straight to process_into_buffer: ragged partial input with the first active channel full-length and a later one shorter returns InsufficientInputBufferSize",
+ "C03_a": "FastFixedOut needed-input size deduplicated into chunk/target_ratio, so set_resample_ratio no longer integrates the ramp: a ramped change to a much higher ratio (1/8 -> 8 relative, max 8) requests far too few frames and the unchecked reads run into stale history",
+ "C04_a": "SincFixedIn::output_frames_max simplified to chunk*orig*max_rel + 10 (drops the allowance for the input a low-ratio chunk leaves unconsumed): max_relative >= ~4, a chunk at the lowest ratio followed by a jump to the highest, non-commensurate ratio/chunk (0.97, 7.7, 256)",
+ "C05_a": "SincFixedIn history shift moved from the end of a call to the start of the next, where self.chunk_size is already the next chunk's size: only a mid-stream set_chunk_size after real audio",
+ "C06_a": "FastFixedOut::set_resample_ratio early return when the requested ratio equals target_ratio also skips the non-ramped update: set_resample_ratio(R, ramp) followed before the next call by set_resample_ratio(R, no ramp)",
+ "C07_a": "FftFixedOut clamps the FFT blocks requested for the next call to at least one: only when the FFT output block exceeds the output chunk (44100->48000, chunk 100, sub_chunks 1), from the third call",
+ "C09_a": "SincFixedOut history buffer sized for 2x the nominal input and grown with Vec::resize in update_needed_len: max_relative > ~2 and the ratio lowered below half the original (step or ramp, also after reset)",
+ "C10_a": "SincFixedOut::reset recomputes needed_input_size/current_buffer_fill before restoring chunk_size: set_chunk_size(c < max) before the reset",
+ "C11_a": "FastFixedIn Nearest branch enumerates after filtering the mask (rank among active channels instead of channel number): PolynomialDegree::Nearest and a mask with an inactive channel before an active one",
+ "C12_a": "SincFixedIn::set_resample_ratio range-checks new_ratio/original against [1/max, max]: the exact documented lower bound original/max for (original, max) pairs whose quotient rounds one ulp below 1/max (48000->44100 max 1.1)",
+ "C13_a": "Resampler::process_partial indexes the caller's mask directly (mask[chan]): only the allocating partial wrapper with Some(mask) shorter than the channel count panics",
+ "C15_a": "AVX f32 kernel unrolled to 16 samples per iteration (len/16 iterations): sinc_len a multiple of 8 but not of 16 drops the last 8 taps, f32 + AVX/FMA only",
+ "C16_a": "process_partial_into_buffer copies min(channel lengths) frames for all channels and drops the empty-channel case: ragged partial input, e.g. a masked channel supplied empty -> active channels' tail replaced by zeros",
+ "C17_a": "f32 AVX dot product iterates len/16 times: sinc_len = 8 x odd drops 8 taps for f32 only (f64 correct); frame counts identical, f32 output off by 1e-3..5e-2 of the peak",
+ "C18_a": "make_window memoises tables >= 512 points in a thread_local map keyed without the squared flag: two family-mate windows (Blackman2 then Blackman) with the same table length built on one thread; an identical instance on a fresh thread differs",
+}
 ROUND = int(os.environ.get('SEEDED_ROUND', '1'))
 if ROUND == 2:
     NEEDS = NEEDS2
@@ -187,9 +209,11 @@ if ROUND == 7:
     NEEDS = NEEDS7
 if ROUND == 8:
     NEEDS = NEEDS8
-SRC_ROOT = {1: '/tmp/seeded-out', 2: '/tmp/seeded2-out', 3: '/tmp/seeded3-out', 4: '/tmp/seeded4-out', 5: '/tmp/seeded5-out', 6: '/tmp/seeded6-out', 7: '/tmp/seeded7-out', 8: '/tmp/seeded8-out'}[ROUND]
-LOGS = {1: ['/tmp/seeded-results.log'], 2: ['/tmp/seeded2-baseline.log', '/tmp/seeded2-new.log', '/tmp/seeded2-final.log', '/tmp/seeded2-thorough.log'], 3: ['/tmp/seeded3-new.log', '/tmp/seeded3-thorough.log', '/tmp/seeded3-final.log', '/tmp/seeded3-final2.log'], 4: ['/tmp/seeded4-new.log', '/tmp/seeded4-thorough.log', '/tmp/seeded4-final.log', '/tmp/seeded4-confirm.log'], 5: ['/tmp/seeded5-new.log', '/tmp/seeded5-final.log', '/tmp/seeded5-thorough.log'], 6: ['/tmp/seeded6-new.log', '/tmp/seeded6-final.log', '/tmp/seeded6-thorough.log'], 7: ['/tmp/seeded7-new.log', '/tmp/seeded7-final.log', '/tmp/seeded7-thorough.log'], 8: ['/tmp/seeded8-new.log', '/tmp/seeded8-final.log', '/tmp/seeded8-thorough.log']}[ROUND]
-PREFIX = {1: '', 2: 'R2_', 3: 'R3_', 4: 'R4_', 5: 'R5_', 6: 'R6_', 7: 'R7_', 8: 'R8_'}[ROUND]
+if ROUND == 9:
+    NEEDS = NEEDS9
+SRC_ROOT = {1: '/tmp/seeded-out', 2: '/tmp/seeded2-out', 3: '/tmp/seeded3-out', 4: '/tmp/seeded4-out', 5: '/tmp/seeded5-out', 6: '/tmp/seeded6-out', 7: '/tmp/seeded7-out', 8: '/tmp/seeded8-out', 9: '/tmp/seeded9-out'}[ROUND]
+LOGS = {1: ['/tmp/seeded-results.log'], 2: ['/tmp/seeded2-baseline.log', '/tmp/seeded2-new.log', '/tmp/seeded2-final.log', '/tmp/seeded2-thorough.log'], 3: ['/tmp/seeded3-new.log', '/tmp/seeded3-thorough.log', '/tmp/seeded3-final.log', '/tmp/seeded3-final2.log'], 4: ['/tmp/seeded4-new.log', '/tmp/seeded4-thorough.log', '/tmp/seeded4-final.log', '/tmp/seeded4-confirm.log'], 5: ['/tmp/seeded5-new.log', '/tmp/seeded5-final.log', '/tmp/seeded5-thorough.log'], 6: ['/tmp/seeded6-new.log', '/tmp/seeded6-final.log', '/tmp/seeded6-thorough.log'], 7: ['/tmp/seeded7-new.log', '/tmp/seeded7-final.log', '/tmp/seeded7-thorough.log'], 8: ['/tmp/seeded8-new.log', '/tmp/seeded8-final.log', '/tmp/seeded8-thorough.log'], 9: ['/tmp/seeded9-new.log', '/tmp/seeded9-cross.log']}[ROUND]
+PREFIX = {1: '', 2: 'R2_', 3: 'R3_', 4: 'R4_', 5: 'R5_', 6: 'R6_', 7: 'R7_', 8: 'R8_', 9: 'R9_'}[ROUND]
 res = {}
 cur = None
 import itertools
@@ -226,14 +250,14 @@ for key in sorted(NEEDS):
     if not os.path.exists(src + "/patch.diff") and not os.path.exists(dst + "/patch.diff"):
         continue
     os.makedirs(dst, exist_ok=True)
-    for f in ("patch.diff", "demo.rs", "notes.md"):
+    for f in ("patch.diff", "demo.rs", "notes.md", "needs.txt"):
         if os.path.exists(f"{src}/{f}"):
             shutil.copy(f"{src}/{f}", f"{dst}/{f}")
     r = res.get(key, {})
     runs = r.get('runs', [])
     final = runs[-1] if runs else {'verdict': 'NOT-RUN', 'detail': ''}
     meta = {
-        "id": PREFIX + key, "round": ROUND, "breaks_property": p, "author": "independent sub-agent (saw only the property text and a scratch worktree" + ("; rounds 2 and 3 were asked for changes that ~1e5 random call histories are unlikely to hit)" if ROUND >= 2 else ")"),
+        "id": PREFIX + key, "round": ROUND, "breaks_property": p, "author": "independent sub-agent (saw only the property text and a scratch worktree" + ("; round 9 was run in a later session against the frozen machinery, one change per property, no widening afterwards)" if ROUND == 9 else "; rounds 2 and 3 were asked for changes that ~1e5 random call histories are unlikely to hit)" if ROUND >= 2 else ")"),
         "needs_to_manifest": NEEDS[key],
         "confirmation": r.get('confirm', ''),
         "what_was_run": [
@@ -250,8 +274,8 @@ for key in sorted(NEEDS):
     json.dump(meta, open(f"{dst}/meta.json", "w"), indent=1)
     clause = re.search(r'clause=([\w<>=!\-]+)', final.get('detail', ''))
     tally.append((meta['caught_by_quick_check'], meta['caught_by_thorough_check'], bool(meta['caught_by_other_property_check']), any(r['verdict'] == 'NOT-APPLICABLE' for r in runs)))
-    rows.append((PREFIX + key, p, ' / '.join(f"{r.get('stage','').replace('seeded2-','').replace('seeded3-','').replace('seeded4-','').replace('seeded5-','').replace('seeded6-','').replace('seeded7-','').replace('seeded8-','').replace('seeded-results','run')}{'' if r['property'] == p else '(' + r['property'] + ')'}:{r['verdict']}" for r in runs) or 'NOT-RUN', clause.group(1) if clause else '', len(runs), NEEDS[key]))
-with open({1: '/verif/seeded/RESULTS.md', 2: '/verif/seeded/RESULTS_round2.md', 3: '/verif/seeded/RESULTS_round3.md', 4: '/verif/seeded/RESULTS_round4.md', 5: '/verif/seeded/RESULTS_round5.md', 6: '/verif/seeded/RESULTS_round6.md', 7: '/verif/seeded/RESULTS_round7.md', 8: '/verif/seeded/RESULTS_round8.md'}[ROUND], 'w') as f:
+    rows.append((PREFIX + key, p, ' / '.join(f"{r.get('stage','').replace('seeded2-','').replace('seeded3-','').replace('seeded4-','').replace('seeded5-','').replace('seeded6-','').replace('seeded7-','').replace('seeded8-','').replace('seeded9-','').replace('seeded-results','run')}{'' if r['property'] == p else '(' + r['property'] + ')'}:{r['verdict']}" for r in runs) or 'NOT-RUN', clause.group(1) if clause else '', len(runs), NEEDS[key]))
+with open({1: '/verif/seeded/RESULTS.md', 2: '/verif/seeded/RESULTS_round2.md', 3: '/verif/seeded/RESULTS_round3.md', 4: '/verif/seeded/RESULTS_round4.md', 5: '/verif/seeded/RESULTS_round5.md', 6: '/verif/seeded/RESULTS_round6.md', 7: '/verif/seeded/RESULTS_round7.md', 8: '/verif/seeded/RESULTS_round8.md', 9: '/verif/seeded/RESULTS_round9.md'}[ROUND], 'w') as f:
     f.write("# Independent seeded changes (one sub-agent per property, two variants each)\n\n")
     f.write("Each change compiles, passes the 96 existing tests, and has a demonstration that fails with it and passes without it (confirmed in a scratch worktree). `check runs` counts how often the target check was run against it (a second run follows a strengthening of the check, see DESIGN.md section 13).\n\n")
     f.write("| id | property | quick check verdict | first clause | check runs | needs |\n|---|---|---|---|---|---|\n")
